@@ -1518,6 +1518,13 @@ int EGLPNUM_TYPENAME_ILLlib_delrows (
 	}
 	for (i = 0; i < num; i++)
 	{
+		if (rowmark[dellist[i]])
+		{
+			/* the counts below assume num distinct rows */
+			QSlog("EGLPNUM_TYPENAME_ILLlib_delrows: row %d is listed twice", dellist[i]);
+			rval = 1;
+			ILL_CLEANUP;
+		}
 		rowmark[dellist[i]] = 1;
 	}
 
@@ -1774,6 +1781,13 @@ int EGLPNUM_TYPENAME_ILLlib_delcols (
 	}
 	for (i = 0; i < num; i++)
 	{
+		if (colmark[qslp->structmap[dellist[i]]])
+		{
+			/* the counts below assume num distinct columns */
+			QSlog("EGLPNUM_TYPENAME_ILLlib_delcols: column %d is listed twice", dellist[i]);
+			rval = 1;
+			ILL_CLEANUP;
+		}
 		colmark[qslp->structmap[dellist[i]]] = 1;
 	}
 
